@@ -109,3 +109,49 @@ modelled! {
         std::mem::forget(report);
     }
 }
+
+// ---------------------------------------------------------------- C05-e typing helpers: ill-typed operands are errors
+
+modelled! {
+    #[kani::unwind(2)]
+    fn c05_e_value_typing_integer() {
+        // an integer where a boolean is required is an error; a negative or oversized integer where a
+        // machine-word count is required is an error; an unsized integer where a sized one is required is an error
+        reset_report_model();
+        let mut report = diagn::Report::new();
+        let v: i64 = kani::any();
+        let size: Option<usize> = if kani::any() { Some(kani::any()) } else { None };
+        let val = expr::Value::make_integer(BigInt::new(v, size));
+        let b = val.expect_bool(&mut report, sp());
+        assert!(b.is_err() && errs(&report) == 1, "integer accepted as a boolean");
+        let u = val.expect_usize(&mut report, sp());
+        assert!(u.is_ok() == (v >= 0), "integer-to-count conversion accepts a negative value or rejects a non-negative one");
+        if let Ok(x) = u { assert!(x as i64 == v, "count differs from the integer"); }
+        let before = errs(&report);
+        let nz = val.expect_nonzero_usize(&mut report, sp());
+        assert!(nz.is_ok() == (v > 0), "non-zero count accepts zero or a negative value");
+        assert!(nz.is_ok() == (errs(&report) == before), "Err without a diagnostic");
+        let before = errs(&report);
+        let sized = val.expect_sized_bigint(&mut report, sp()).is_ok();
+        assert!(sized == size.is_some(), "unsized integer accepted where a sized one is required");
+        assert!(sized == (errs(&report) == before), "Err without a diagnostic");
+        kani::cover!(v == 0 && size.is_none(), "unsized zero");
+        kani::cover!(v < 0 && size.is_some(), "sized negative value");
+        std::mem::forget(val); std::mem::forget(report);
+    }
+}
+modelled! {
+    #[kani::unwind(2)]
+    fn c05_e_value_typing_bool() {
+        reset_report_model();
+        let mut report = diagn::Report::new();
+        let bv: bool = kani::any();
+        let val = expr::Value::Bool(bv);
+        assert!(val.expect_bool(&mut report, sp()) == Ok(bv) && errs(&report) == 0, "boolean not accepted as a boolean");
+        assert!(val.expect_usize(&mut report, sp()).is_err() && errs(&report) == 1, "boolean accepted as an integer count");
+        assert!(val.expect_bigint(&mut report, sp()).is_err() && errs(&report) == 2, "boolean accepted as an integer");
+        assert!(val.expect_nonzero_usize(&mut report, sp()).is_err() && errs(&report) == 3, "boolean accepted as a non-zero count");
+        kani::cover!(bv);
+        std::mem::forget(val); std::mem::forget(report);
+    }
+}
